@@ -31,6 +31,9 @@ func init() {
 			Trusted:     commonTrusted,
 		},
 		Mutants: []Mutant{
+			{Name: "!= no longer negates ==", File: "eval.go", Old: "\tif node.Operator.typ == itemNotEquals {\n\t\treturn reflect.ValueOf(!equal)\n\t}", New: "\tif node.Operator.typ == itemNotEquals {\n\t\treturn reflect.ValueOf(equal)\n\t}", Rule: "C04.ops"},
+			{Name: "== negated instead of !=", File: "eval.go", Old: "\tif node.Operator.typ == itemNotEquals {\n\t\treturn reflect.ValueOf(!equal)\n\t}", New: "\tif node.Operator.typ == itemEquals {\n\t\treturn reflect.ValueOf(!equal)\n\t}", Rule: "C04.ops"},
+			{Name: "equivalent: equality compared with the wanted outcome", File: "eval.go", Old: "\tif node.Operator.typ == itemNotEquals {\n\t\treturn reflect.ValueOf(!equal)\n\t}\n\treturn reflect.ValueOf(equal)", New: "\twant := node.Operator.typ != itemNotEquals\n\treturn reflect.ValueOf(equal == want)", Rule: "-"},
 			{Name: "int == float truncates the float (original defect)", File: "eval.go", Old: "\tif (isInt(kind) || isUint(kind)) && isFloat(v2.Kind()) {\n\t\t// a floating-point operand makes the comparison floating-point (2 == 2.5 is false)\n\t\treturn toFloat(v1) == v2.Float()\n\t}\n", New: "", Rule: "C04.kinds"},
 			{Name: "sign look-ahead forgets ')' (original defect, one token)", File: "lex.go", Old: "\t\t\titemRightParen != l.lastType &&\n\t\t\titemRightBrackets != l.lastType &&\n\t\t\titemNil != l.lastType &&\n\t\t\titemUnderscore != l.lastType &&\n\t\t\titemTrans != l.lastType {\n\t\t\tl.backup()\n\t\t\treturn lexNumber\n\t\t}\n\t\tl.emit(itemMinus)", New: "\t\t\titemRightBrackets != l.lastType &&\n\t\t\titemNil != l.lastType &&\n\t\t\titemUnderscore != l.lastType &&\n\t\t\titemTrans != l.lastType {\n\t\t\tl.backup()\n\t\t\treturn lexNumber\n\t\t}\n\t\tl.emit(itemMinus)", Rule: "C04.sign"},
 			{Name: "<= evaluated as < for unsigned operands", File: "eval.go", Old: "\t\t\t\tisTrue = left.Uint() <= toUint(right)", New: "\t\t\t\tisTrue = left.Uint() < toUint(right)", Rule: "C04.ops"},
@@ -169,6 +172,48 @@ func c04ladder(c *an.Ctx) {
 			return true
 		})
 		key := lv.fn
+		// a level accepts whatever the next-tighter level produced: no failure is conditioned on the node type of an
+		// operand (parentheses leave no trace in the tree, so rejecting "a == b" as the operand of == also rejects
+		// "(a == b) == c": grouping would no longer decide)
+		{
+			rejects := token.NoPos
+			an.InspectOwn(f, func(n ast.Node) bool {
+				ifs, ok := n.(*ast.IfStmt)
+				if !ok {
+					return true
+				}
+				testsNodeType := false
+				ast.Inspect(ifs.Cond, func(m ast.Node) bool {
+					if call, ok := m.(*ast.CallExpr); ok {
+						if sel, ok := an.Unparen(call.Fun).(*ast.SelectorExpr); ok && sel.Sel.Name == "Type" && len(call.Args) == 0 {
+							if tv, ok := info.Types[call]; ok && an.TypeName(tv.Type) == "jet.NodeType" {
+								testsNodeType = true
+							}
+						}
+					}
+					if _, ok := m.(*ast.TypeAssertExpr); ok {
+						testsNodeType = true
+					}
+					return true
+				})
+				if !testsNodeType {
+					return true
+				}
+				fails := false
+				ast.Inspect(ifs.Body, func(m ast.Node) bool {
+					if call, ok := m.(*ast.CallExpr); ok && p.CallNeverReturns(info, call) {
+						fails = true
+					}
+					return !fails
+				})
+				if fails && !rejects.IsValid() {
+					rejects = ifs.Pos()
+				}
+				return true
+			})
+			c.Check(!rejects.IsValid(), "C04.ladder", key+"/accepts-any-operand", f.Pos(), "no operand is rejected for the kind of expression it is",
+				lv.fn+" fails for certain kinds of operand node: an expression in parentheses is the same node as without them, so grouping can no longer combine these operators (left-associativity and \"parentheses override\" are lost for this level)")
+		}
 		if loop == nil {
 			c.Bad("C04.ladder", key, f.Pos(), nil, "%s has no operator loop", lv.fn)
 			continue
@@ -879,12 +924,8 @@ func c04ops(c *an.Ctx) {
 			}
 		}
 	}
-	// equality: != is the negation of ==
-	if f := c.Fn("C04.ops", "(*Runtime).evalComparativeExpression"); f != nil {
-		src := strings.ReplaceAll(an.StmtStr(f.Body), " ", "")
-		ok := strings.Contains(src, "equal:=checkEquality(left,right)") && strings.Contains(src, "ifnode.Operator.typ==itemNotEquals{\n\t\treturnreflect.ValueOf(!equal)") && strings.HasSuffix(strings.TrimSpace(src), "returnreflect.ValueOf(equal)\n}")
-		c.Check(ok, "C04.ops", "(*Runtime).evalComparativeExpression", f.Pos(), "!= is the negation of ==", "evalComparativeExpression does not return !checkEquality for != and checkEquality for ==")
-	}
+	// equality: != is the negation of == (decided by evaluation, c04cmp.go)
+	c04equalityOps(c)
 	c.Expect("C04.ops", "arithmetic/relational operations inside operator arms", n, 40)
 }
 
@@ -1043,6 +1084,44 @@ func c04kinds(c *an.Ctx) {
 					c.Undecided("C04.kinds", fnName+"/promotion-used", f.Pos(), "%s", x.Undecided)
 					continue
 				}
+			}
+			// … and what is computed where promotion is needed is a floating-point value: every reflect.ValueOf(E) stored
+			// on such a path has a float E ("any floating-point operand makes the operation floating-point" — also
+			// when the float happens to be a whole number)
+			if probe != nil {
+				var integral []string
+				fx := p.NewExplorer(f, an.Hooks{Assign: func(x *an.Explorer, lhs, rhs ast.Expr, stmt ast.Node, st *an.State) {
+					if rhs == nil {
+						return
+					}
+					call, ok := an.Unparen(rhs).(*ast.CallExpr)
+					if !ok || an.CalleeName(info, call) != "reflect.ValueOf" || len(call.Args) != 1 {
+						return
+					}
+					pr := probe
+					if o := p.OwnerFn(rhs.Pos()); o != nil && probes[o] != nil {
+						pr = probes[o]
+					}
+					if v, known := x.Truth(pr, st); !known || !v {
+						return
+					}
+					if inModArm(f, call) {
+						return
+					}
+					tv, ok := info.Types[call.Args[0]]
+					if !ok || tv.Type == nil {
+						return
+					}
+					if bt, ok := tv.Type.Underlying().(*types.Basic); !ok || bt.Info()&types.IsFloat == 0 {
+						integral = append(integral, fmt.Sprintf("%s (%s)", an.Str(call), p.RelPos(call.Pos())))
+					}
+				}})
+				fx.Run(nil)
+				c.States += fx.Visited
+				sort.Strings(integral)
+				integral = uniqStrings(integral)
+				c.Check(len(integral) == 0 && fx.Undecided == "", "C04.kinds", fnName+"/promotion-yields-float", f.Pos(), "where float promotion is needed the result is a floating-point value",
+					fmt.Sprintf("%s: %v store a non-float result on a path where needFloatPromotion is true: an integer combined with a float (every numeric literal is one) must be a float, whatever its value", fnName, integral))
 			}
 			sort.Strings(missing)
 			missing = uniqStrings(missing)
